@@ -30,11 +30,21 @@ CLAIMS.update({
                      "acknowledgement it is gone; acknowledgement results are Good exactly for retained entries and "
                      "BadSequenceNumberUnknown for unknown ones; refused publish requests acknowledge nothing."),
 })
+CLAIMS["C23"] = dict(engine="revise", level="model_checking",
+    text="Revise.tla enumerates the requested values (NaN, +-inf, negative, 0, around each minimum, huge; counts 0, 1, around the "
+         "maximum, around u32::MAX/3, u32::MAX; queue sizes) x 3 server limit configurations x create/modify; TLC checks the "
+         "specified revision against the property predicate for every point and emits every point as a case; each case is sent "
+         "through the real Create/ModifySubscription and Create/ModifyMonitoredItems services and the returned revised values are "
+         "judged by the same TLA+ predicate in TLC.",
+    note="Trusted: TLC, the harness's mapping of abstract durations/counts to f64/u32 and back (exact for the points used). "
+         "Server limits are set through public ServerState fields.")
 NOT_APPLICABLE = {
     "C41": "identity of a third-party YAML serializer over configuration records: no state, transition or case analysis for a TLA+ specification to own, and TLC cannot enumerate the string space that matters (DESIGN.md section 5)",
     "C42": "encode/decode fidelity of serde implementations with identity as the only oracle: outside what a TLA+ model decides (DESIGN.md section 5)",
 }
 ENGINES = [
+    {"name": "revise", "path": "/verif/harness/src/e_revise.rs", "serves_properties": ["C23"],
+     "kind_free_text": "sends each point of spec/Revise.tla's input space through the real subscription / monitored item services; judged by spec/TraceRevise.tla"},
     {"name": "subs", "path": "/verif/harness/src/e_subs.rs", "serves_properties": ["C21", "C22", "C26", "C27", "C40"],
      "kind_free_text": "replays behaviours of spec/Subscription.tla on a real server connection (TcpTransport + MessageHandler + Session + Subscriptions) without a socket; observations judged by spec/TraceSubs.tla + spec/SubsProps.tla"},
 ]
